@@ -1,4 +1,5 @@
 import Rie.Proofs.Sys
+import Rie.Props.FrontEndTable
 
 /-!
 # C10 — At most one invocation in flight; extra callers are refused harmlessly
@@ -55,5 +56,11 @@ example :
     let s1 := step 0 {} (.invoke 0 5 "h")
     s1.resv.isSome = true ∧ (step 0 s1 (.invoke 1 5 "h")).outs = ["caller1 done err=AlreadyReserved body=empty"] := by
   decide
+
+/-- **The client error** (front end): a refused invocation (`ErrAlreadyReserved`) is answered with
+    status 400 and an empty body, whatever the proxy holds. -/
+theorem C10_frontend_refusal (proxyStatus : Nat) :
+    Rie.FrontEnd.respond (some "ErrAlreadyReserved") proxyStatus = { status := 400, chunks := [] } := by
+  simp [Rie.FrontEnd.respond, Rie.FrontEnd.table, Rie.FrontEnd.run, Rie.FrontEnd.setStatus]
 
 end Rie.Props.C10
